@@ -391,12 +391,13 @@ static void printPending(PlanControlX&) { std::printf("~"); }
 static void printPending(GuardControlX& c) { printTr(c.pendingTransition()); }
 static std::string machinePlanStr();
 static void printCPlan(ConstControlX& c) {
-	std::printf("~");
 #if CFG_PLANS
-	// the read-only view a const control hands out shows the machine's plan
-	if (planStr(c.plan()) != machinePlanStr()) std::printf(" FAIL:plan-const-control-view-differs");
+	// the read-only view a const control hands out (F10): printed like every other view, and it is the machine's plan
+	const std::string s = planStr(c.plan());
+	std::printf("%%s", s.c_str());
+	if (s != machinePlanStr()) std::printf(" FAIL:plan-const-control-view-differs");
 #else
-	(void) c;
+	(void) c; std::printf("~");
 #endif
 }
 static void printCPlan(PlanControlX& c) {
